@@ -4,7 +4,7 @@
    an arbitrary schedule (list of thread ids) of arbitrary per-thread programs. *)
 From Coq Require Import ZArith List Bool.
 From V Require Import factory.FacModel factory.FacSpec factory.FacObs factory.FacEq factory.FacEqThm
-  factory.FacLock factory.FacLock2 factory.FacRefute factory.FacThm factory.FacThm2 factory.FacThm3 factory.FacProg factory.FacFresh
+  factory.FacLock factory.FacLock2 factory.FacRefute factory.FacThm factory.FacThm2 factory.FacThm3 factory.FacThm4 factory.FacProg factory.FacFresh
   factory.FacEqGenBase gen.FacEqGen factory.FacEqGenThm factory.FacCfg gen.FacCfgGen factory.FacCfgThm
   factory.FacFixed gen.FixedGen factory.FacFixedThm.
 From V Require tzfile.TzModel.
@@ -26,6 +26,26 @@ Theorem C18_factory_identity_explicit : forall progs sched later r earlier r',
   In (o_obj r') (o_held r) -> o_obj r = o_obj r'.
 Proof. exact factory_identity_explicit_lemma. Qed.
 Print Assumptions C18_factory_identity_explicit.
+
+(* RESTRICTION (stated with the property's wording): "gettz with the same name ... returns that very
+   object" is proved, and demanded of the implementation, only for names whose zone gettz CACHES.
+   By design (tz.py GettzFunc.__call__: "no caching of local zones or None") a name that resolves to
+   a tzlocal(), to no zone (None), or the call gettz() without a name is returned uncached: those
+   returns are the model's EUncached events, they are not observations of the spec, and no identity
+   is claimed for them.  Same for the cache epoch: identity across gettz.cache_clear() is refuted
+   (C18_retention_cache_clear_refuted, finding F-C18-a). *)
+
+(* ---- a call that reaches its `return` returns an object, hands it to the client and is observed:
+   no factory call of the model finishes without a result *)
+Theorem C18_call_returns : forall progs sched t th,
+  let s := run (init progs) sched in
+  nth_error (thrs s) t = Some th -> tpc th = PRet ->
+  exists f k kd slot rest o,
+    prog th = OCall f k kd slot :: rest /\ nested th = false /\ inst th = Some o /\
+    step s t = Some (add_log (set_refs (set_thr s t (t_done th)) (set_slot (refs s) slot (Some o)))
+                             (ERet t f k o (tep th) (map snd (refs s)))).
+Proof. exact call_returns_lemma. Qed.
+Print Assumptions C18_call_returns.
 
 (* ---- never two different live objects for one key (alive = any strong reference: client,
    strong cache, a running call's local) *)
@@ -164,6 +184,15 @@ Theorem C18_zone_eq_sym : forall a b, zone_eq a b = zone_eq b a.
 Proof. exact zone_eq_sym_lemma. Qed.
 Print Assumptions C18_zone_eq_sym.
 
+(* NOTE on the strength of this statement: for tzutc / tzoffset / tzlocal (and their cross pairs) the
+   offsets are modelled and the theorem has content.  For tzrange/tzstr, tzfile and tzical zones the
+   offset functions are universally quantified functions of EXACTLY the attributes __eq__ compares,
+   so "equal compared attributes => equal offsets" is congruence: the theorem ASSUMES that utcoffset
+   depends on nothing but the compared attributes.  For tzfile that dependence is a theorem of the
+   tzfile area (C06_gen_eq_zones_behave_same: zones whose regenerated __eq__ holds have the same
+   fromutc/utcoffset/dst/tzname/exists/ambiguous); for tzrange/tzstr it is an assumption here
+   (listed in the evidence; hasdst and _dst_base_offset are derived from the compared attributes in
+   tzrange.__init__ / tzstr.__init__), exercised by the == table x probe grid of check_C18. *)
 Theorem C18_eq_zones_equal_offsets :
   forall (isdst : Z -> bool) (range_off : Z -> Z -> Z -> Z -> Z -> Z -> Z -> Z) (file_off : Z -> Z -> Z -> Z -> Z)
          (ical_off : Z -> Z -> Z) a b i,
